@@ -158,4 +158,20 @@ def startupCached (cached : Bool) (orphanFatal : Bool) (fs : FileSet) : Loaded Ã
   | .sealed _ => (if fs.index = .empty âˆ§ cached = false then .down else .sealed, loadEffect orphanFatal fs)
   | _ => SV.FileSet.startup orphanFatal fs
 
+/-- what `.frac-cache` holds for a fraction when the store starts -/
+inductive CacheEntry
+  | missing      -- no entry (no file, unreadable file, older file)
+  | null         -- `"<name>": null` - `GetFracInfo` returns `(nil, true)`
+  | untrusted    -- an object without the index size (`{}`, older format, zeroed): `NewSealed` ignores it
+  | trusted      -- an object with `index_on_disk > 0`: `NewSealed` takes the Info from it and does not read the header
+  deriving DecidableEq, Repr
+
+/-- `NewSealed`'s fast path is taken only for a trusted entry (`info != nil && info.IndexOnDisk > 0`) -/
+def CacheEntry.fastPath : CacheEntry â†’ Bool
+  | .trusted => true
+  | _ => false
+
+def startupWithCache (e : CacheEntry) (orphanFatal : Bool) (fs : FileSet) : Loaded Ã— FileSet :=
+  startupCached e.fastPath orphanFatal fs
+
 end SV.Lifecycle
